@@ -28,8 +28,8 @@ G_IL = '%import sub (A, B)\nstart: x+\nx: A [B] "!" | "(" x ")" -> grp\nother: B
 G_K = 'start: (KW | ID | NUM)+\nother: ID+\nKW.2: "ab"\nID: /[a-b]+/\nNUM.-1: /[ab]/\n%ignore " "\n%ignore "!"\n%ignore "("\n%ignore ")"\n%ignore "c"\n'   # colliding terminals: priorities decide
 G_N = '%import .mid (x, B)\nstart: x+\nother: B+\n%ignore " "\n%ignore "("\n%ignore ")"\n%ignore "c"\n'       # g -> mid -> leaf: a NESTED import
 MID = '%import .leaf (A)\nx: A [B] "!"\nB: "b"\n'
-LEAF = ['A: "a"\n', 'A: "a" | "A"\n', 'A: /a+/\n']
-SUB = ['A: "a"\nB: "b"\n', 'A: "a" | "A"\nB: "bb"\n', 'A: /a+/\nB: "b"\n']
+LEAF = ['A: "a"\n', 'A: "a" | "A"\n', 'A: /a+/\n', 'A: "A"\n']                                                    # versions 0 and 3 have the same size
+SUB = ['A: "a"\nB: "b"\n', 'A: "a" | "A"\nB: "bb"\n', 'A: /a+/\nB: "b"\n', 'A: "a"\nB: "c"\n']       # versions 0 and 3 have the same size
 
 
 def _big():
@@ -86,12 +86,13 @@ class Env:
         self.sub = {V + 'p1/sub.lark': 0, V + 'p2/sub.lark': 1, V + 'p1/leaf.lark': 0}
         self.lark_version = '1.3.1'
         self.py = None
+        self.keep_mtime = set()      # files whose next edit keeps the old modification time (cp -p, rsync -t, os.utime)
 
     def sig(self, keyname):
         """the semantic key of the statement: grammar text, options, imported-file contents, lark / python version.
         (Where the files live is not part of it: two directories with identical contents denote the same parser.)"""
         k = POOL[keyname]
-        return ('g%x' % (jhash(k['g']) & 0xffffff), repr(sorted(k['o'].items())), tuple(self.sub[p] for p in k.get('imports', ())),
+        return ('g%x' % (jhash(k['g']) & 0xffffff), repr(sorted(k['o'].items())), tuple(self.sub[p] % 4 for p in k.get('imports', ())),
                 self.lark_version, tuple(self.py) if self.py else None)
 
 
@@ -174,7 +175,8 @@ class C12(Check):
             if i > 0 and r < 0.35:
                 env.append({'kind': 'content', 'path': rng.choice(paths), 'fault': self._gen_content_fault(rng)})
             elif r < 0.45:
-                env.append({'kind': 'edit_import', 'file': rng.choice([V + 'p1/sub.lark', V + 'p2/sub.lark', V + 'p1/leaf.lark']), 'version': rng.randrange(len(SUB))})
+                env.append({'kind': 'edit_import', 'file': rng.choice([V + 'p1/sub.lark', V + 'p2/sub.lark', V + 'p1/leaf.lark']), 'version': rng.choice([0, 1, 2, 3, 3, 0]),
+                            'keep_mtime': rng.random() < 0.35})
             elif r < 0.53:
                 env.append({'kind': 'lark_version', 'v': rng.choice(LARK_VERSIONS)})
             elif r < 0.58:
@@ -187,7 +189,10 @@ class C12(Check):
                 env.append({'kind': 'replace_with_valid', 'path': rng.choice(paths), 'key': rng.choice(keys),
                             'lark_version': rng.choice(LARK_VERSIONS), 'py': rng.choice(PY_VERSIONS)})
             faults, aft, load_exc = self._gen_life_faults(rng)
-            lives.append({'key': rng.choice(hk), 'path': rng.choice(paths), 'env': env, 'faults': faults, 'aftermath': aft, 'load_exc': load_exc,
+            mid = None
+            if rng.random() < 0.06:
+                mid = {'file': rng.choice([V + 'p1/sub.lark', V + 'p2/sub.lark', V + 'p1/leaf.lark']), 'version': rng.randrange(4)}
+            lives.append({'key': rng.choice(hk), 'path': rng.choice(paths), 'env': env, 'faults': faults, 'aftermath': aft, 'load_exc': load_exc, 'mid_edit': mid,
                           'bufsize': rng.choice([1, 7, 64, 512, 4096, 8192, 1 << 20])})
         return {'mode': 'history', 'lives': lives, 'reset_volatile': rng.random() < 0.04}
 
@@ -204,11 +209,12 @@ class C12(Check):
     # ------------------------------------------------------------------ environment handling
     def _apply_env(self, env, disk):
         for p, v in env.sub.items():
-            disk.texts[p] = (LEAF if p.endswith('leaf.lark') else SUB)[v % 3]
-        disk.texts[V + 'p1/n.lark'] = G_N
-        disk.texts[V + 'p1/mid.lark'] = MID
-        disk.texts[V + 'p1/g.lark'] = G_I
-        disk.texts[V + 'p2/g.lark'] = G_I
+            disk.set_text(p, (LEAF if p.endswith('leaf.lark') else SUB)[v % 4], preserve_mtime=p in env.keep_mtime)
+        env.keep_mtime.clear()
+        disk.set_text(V + 'p1/n.lark', G_N)
+        disk.set_text(V + 'p1/mid.lark', MID)
+        disk.set_text(V + 'p1/g.lark', G_I)
+        disk.set_text(V + 'p2/g.lark', G_I)
         self.lark.__version__ = env.lark_version
         import lark.lark as LL
         if isinstance(LL.sys, F._SysShim):
@@ -425,6 +431,14 @@ class C12(Check):
         sig = env.sig(keyname)
         faults = {int(a): b for a, b in (life.get('faults') or {}).items()}
         proc = F.Proc(disk, key=sig, bufsize=life.get('bufsize', 8192), faults=faults)
+        me = life.get('mid_edit')
+        if me:
+            # an imported file is edited while this process runs: after it was read for the build, right before the cache file is written
+            def edit(me=me):
+                env.sub[me['file']] = me['version']
+                self._apply_env(env, disk)
+                out.count('env:import-edited-between-build-and-cache-write')
+            proc.hook = ('open-w', edit)
         self.facade.default = proc
         self._reset_volatile()
         before = disk.snapshot()
@@ -504,7 +518,7 @@ class C12(Check):
         if isinstance(path, str) and (cpaths - {path}):
             return Violation('collateral-access', life=li, key=keyname, paths=sorted(cpaths - {path}))
         # (4) repair: after a lifetime without any fault the file is a valid cache for this key
-        if not proc.fired and not fired_exc[0] and not any(p_ in disk.path_state for p_ in cpaths):
+        if not proc.fired and not fired_exc[0] and not any(p_ in disk.path_state for p_ in cpaths) and not (me and proc.hook is None):
             rp = next(iter(cpaths), None)
             if rp is None or rp not in disk.files:
                 return Violation('not-repaired(no-file)', life=li, key=keyname)
@@ -585,6 +599,9 @@ class C12(Check):
                 out.count('content-fault:' + f['kind'])
         elif k == 'edit_import':
             env.sub[ev['file']] = ev['version']
+            if ev.get('keep_mtime'):
+                env.keep_mtime.add(ev['file'])
+                out.count('env:edit-import-keeping-mtime')
             out.count('env:edit-import')
         elif k == 'lark_version':
             env.lark_version = ev['v']
